@@ -420,6 +420,8 @@ Definition reinit_dkg (now : Z) (h0 : hs) (r : option redkg) : res unit :=
   match r with
   | None => RErr h0
   | Some rd =>
+      (* a blank identifier names no round: refused before anything is written *)
+      if N.eqb (rd_id rd) 0 then RErr h0 else
       match tget' (ns_rounds (h_st h0)) (rd_id rd) with
       | Some _ => ROk h0 tt
       | None =>
